@@ -9,6 +9,10 @@ Case (items separated by ` ; `):
         record; upstream OUTCOME ok|slow|fail1|fail with LATMS per attempt; the runtimeDone record sits in a batch
         after PRE and before POST other records; NB / NA batches without runtimeDone before the datapoints / after
         the runtimeDone batch; LATE datapoints sent after the following `/next` arrived and before it is answered.
+  `early K`                                     (optional, after `cfg ok`) K datapoints are sent as soon as the extension has
+        subscribed to telemetry, i.e. inside the start-up window; one that is acknowledged provably before the window
+        can have ended is logged `E<id>`, a later one `A<id>`.  Which it is depends on timing, so the model makes no
+        prediction for such a case (its line begins with `*`); the specification judges the real log.
   After the last invocation the runtime answers SHUTDOWN.
 
 Log (harness output, and `model` output): one global sequence of
@@ -16,6 +20,7 @@ Log (harness output, and `model` output): one global sequence of
   `N<k>`                         k-th `GET /event/next` arrived
   `R<k>i` `R<k>s`                it is answered INVOKE / SHUTDOWN
   `A<id>`                        datapoint `id` acknowledged (202) by the extension's ingestion endpoint
+  `E<id>`                        … acknowledged before the start-up window can have ended (so before the initial flush)
   `D<k>`                         the telemetry batch carrying invocation k's runtimeDone record is being posted
   `U+<ids>`                      first upstream attempt of the body holding datapoints `ids` (comma separated) arrived
   `U-<ids>:<status>:<attempts>`  last upstream attempt of that body answered (`*` attempts when not determined)
@@ -36,17 +41,20 @@ structure InvCase where
 
 structure Case where
   initOk : Bool
+  early : Nat := 0
   invs : List InvCase
 
 def parseCase (line : String) : Option Case := do
   match splitBy ";" (tokens line) with
   | ["cfg", i] :: items =>
+    let early := (items.filterMap (fun it => match it with | ["early", k] => k.toNat? | _ => none)).sum
+    let items := items.filter (fun it => match it with | ["early", _] => false | _ => true)
     let invs ← (items.filter (· ≠ [])).mapM (fun it => match it with
       | ["inv", ndp, outcome, lat, pre, post, nb, na, late] => do
         pure { ndp := ← ndp.toNat?, outcome := outcome, lat := ← lat.toNat?, pre := ← pre.toNat?, post := ← post.toNat?,
                nb := ← nb.toNat?, na := ← na.toNat?, late := ← late.toNat? : InvCase }
       | _ => none)
-    pure { initOk := i == "ok", invs := invs }
+    pure { initOk := i == "ok", early := early, invs := invs }
   | _ => none
 
 def idsTok (ids : List Nat) : String := ",".intercalate (ids.map toString)
@@ -108,6 +116,7 @@ def runModel (line : String) : String :=
   | none => "BAD_CASE"
   | some c =>
     let m := simulate c
+    if c.early > 0 then "* the order of the start-up datapoints and the initial flush is left to timing" else
     match m.stuck with
     | some e => "MODEL_STUCK " ++ e
     | none => unwords m.out
@@ -119,6 +128,7 @@ inductive Tok
   | n (k : Nat)
   | r (k : Nat) (shutdown : Bool)
   | a (id : Nat)
+  | e (id : Nat)
   | d (k : Nat)
   | up (ids : List Nat)
   | um (ids : List Nat) (status : String)
@@ -138,6 +148,7 @@ def parseTok (t : String) : Option Tok :=
     else if body.endsWith "s" then (body.dropEnd 1).toString.toNat?.map (.r · true)
     else none
   | 'A' :: r => (String.ofList r).toNat?.map .a
+  | 'E' :: r => (String.ofList r).toNat?.map .e
   | 'D' :: r => (String.ofList r).toNat?.map .d
   | 'U' :: '+' :: r => (parseIds (String.ofList r)).map .up
   | 'U' :: '-' :: r =>
@@ -183,6 +194,7 @@ def actsOf (t : Tok) (s : St) : List Act :=
   | .r _ false => [.rtInvoke]
   | .r _ true => [.rtShutdown]
   | .a id => [.accept id]
+  | .e id => [.accept id]
   | .d _ => [.rtDone]
   | .up ids => (List.range s.flushes.length).filterMap (fun j => match s.flushes[j]? with
       | some f => if f.st == .created && sameSet f.body ids then some (.postBegin j) else none
@@ -226,7 +238,15 @@ def orderCheck (c : Case) (log : List Tok) : Option String :=
       | some pn =>
         if k == 1 then
           (match posOf log (· == .reg) with
-           | some pr => if pr < pn then none else some "next-before-register"
+           | some pr =>
+             if pr ≥ pn then some "next-before-register" else
+             -- the initial flush: every datapoint accepted inside the start-up window is in a body whose last
+             -- attempt was answered before the first /next (theorem C20_startup_data)
+             let early := (log.take pn).filterMap (fun t => match t with | .e id => some id | _ => none)
+             let attempted := (log.take pn).flatMap (fun t => match t with | .um ids _ => ids | _ => [])
+             (match early.find? (fun id => !attempted.contains id) with
+              | some id => some s!"initial-flush-missing the first /next was requested before datapoint {id}, accepted during start-up, had been through a delivery attempt"
+              | none => none)
            | none => some "register-missing")
         else
           let j := k - 1   -- the invocation whose flush must be over
@@ -235,7 +255,7 @@ def orderCheck (c : Case) (log : List Tok) : Option String :=
             if pn < pr then some s!"next-before-flush /next {k} was requested before invocation {j} was even handed out" else
             if pn < pd then some s!"next-before-flush /next {k} was requested before invocation {j}'s runtimeDone (WaitForFlush skipped or stale notification)" else
             -- every datapoint acknowledged before D_j is in a body whose last attempt was answered before N_k
-            let acked := (log.take pd).filterMap (fun t => match t with | .a id => some id | _ => none)
+            let acked := (log.take pd).filterMap (fun t => match t with | .a id => some id | .e id => some id | _ => none)
             let attempted := (log.take pn).flatMap (fun t => match t with | .um ids _ => ids | _ => [])
             match acked.find? (fun id => !attempted.contains id) with
             | some id => some s!"next-before-flush /next {k} was requested before the delivery attempt of datapoint {id} (accepted before runtimeDone {j}) had completed"
